@@ -270,7 +270,8 @@ def env_cases(draw, tier="quick"):
     names = list(folds) or ["training-set"]
     episodes = draw(st.lists(st.sampled_from(names), min_size=2, max_size=3))
     return {"grid": grid, "lat_us": lat, "events": [list(e) for e in events], "markov": markov, "warm_us": warm,
-            "folds": folds, "episodes": episodes, "inherited_observer": draw(st.sampled_from([False, True]))}
+            "folds": folds, "episodes": episodes, "inherited_observer": draw(st.sampled_from([False, True])),
+            "readd": draw(st.sampled_from([None, None, None, [0], [1, 2], [0, 0, 5]]))}
 
 
 def env_model(case, fold):
@@ -360,6 +361,10 @@ def run_env(case):
     env = TradingEnv(action_space=BoxPortfolio([etf], low=-1.0, high=1.0), state=state, reward=RW.RewardSimpleReturn(),
                      transmitter=tr, initial_cash=100.0, broker_fees=BrokerFees(interest_rate=rate),
                      latency=timedelta(microseconds=case["lat_us"]).total_seconds(), steps_delay=0)
+    if case.get("readd"):
+        # timesteps that are already on the grid are registered once more after the environment was built
+        tr.add_timesteps([E.dt(case["grid"][i % len(case["grid"])]) for i in case["readd"]])
+        res.tag("timesteps-registered-again-after-build")
     agg = {"latent": 0, "history": 0, "undeliverable": 0, "newdates": 0, "later-fold-reset": 0}
     for ep, fold in enumerate(case["episodes"]):
         model = env_model(case, fold)
